@@ -1,3 +1,351 @@
 // harnesses mounted as child module of agdb/src/storage/storage_records.rs
 #[allow(unused_imports)]
 use super::*;
+
+// ---------------------------------------------------------------------------
+// Contract model of the free-space index of `StorageRecords`
+// ---------------------------------------------------------------------------
+//
+// Measured (see report): `BTreeMap<u64, BTreeSet<u64>>` (field `free_size_pos`)
+// cannot be executed by CBMC -- a single `entry(k).or_default().insert(p)` runs
+// out of 10 GB in propositional reduction (the root pointer of the set nested in
+// the map node is not constant-propagated and symex explores the node-split path
+// on a garbage pointer). The harnesses of `Storage` therefore replace the six
+// functions of `StorageRecords` that touch the two BTree indexes by the model
+// below (a plain list of regions), which is written from their documented
+// behaviour:
+//   take_free(min)            smallest region with size == min or size >= min+16, removed
+//   take_free_after(end, min) region starting at `end` with 16+size == min or size >= min, removed
+//   mark_free_compact(p, s)   union of [p, p+16+s) with every free region touching it, registered
+//   mark_free(p, s)           region registered as is (reopen path, `set_record`)
+//   clear_free()              no free region
+//   free_size()               sum of the sizes of the free regions
+// Everything else of `StorageRecords` (record table, index free list, `records`,
+// `set_record`, `rebuild_free_index`, `record`, `set_pos`, `set_size`) is the real code.
+
+pub(crate) const C04_FCAP: usize = 4;
+
+pub(crate) struct C04FreeModel {
+    pub n: usize,
+    pub pos: [u64; C04_FCAP],
+    pub size: [u64; C04_FCAP],
+    pub total: u64,
+}
+
+pub(crate) static mut C04_FM: C04FreeModel = C04FreeModel {
+    n: 0,
+    pos: [0; C04_FCAP],
+    size: [0; C04_FCAP],
+    total: 0,
+};
+
+pub(crate) fn c04_fm() -> &'static mut C04FreeModel {
+    unsafe { &mut *std::ptr::addr_of_mut!(C04_FM) }
+}
+
+impl C04FreeModel {
+    pub(crate) fn reset(&mut self) {
+        self.n = 0;
+        self.total = 0;
+    }
+
+    fn push(&mut self, pos: u64, size: u64) {
+        assert!(self.n < C04_FCAP, "harness bound: more free regions than the model holds");
+        self.pos[self.n] = pos;
+        self.size[self.n] = size;
+        self.n += 1;
+        self.total += size;
+    }
+
+    fn take(&mut self, i: usize) -> (u64, u64) {
+        let r = (self.pos[i], self.size[i]);
+        self.n -= 1;
+        self.pos[i] = self.pos[self.n];
+        self.size[i] = self.size[self.n];
+        self.total -= r.1;
+        r
+    }
+
+    fn find_pos(&self, pos: u64) -> Option<usize> {
+        let mut i = 0;
+        let mut r = None;
+        while i < C04_FCAP {
+            if i < self.n && self.pos[i] == pos {
+                r = Some(i);
+            }
+            i += 1;
+        }
+        r
+    }
+
+    fn find_end(&self, end: u64) -> Option<usize> {
+        let mut i = 0;
+        let mut r = None;
+        while i < C04_FCAP {
+            if i < self.n && self.pos[i] + STORAGE_RECORD_SIZE + self.size[i] == end {
+                r = Some(i);
+            }
+            i += 1;
+        }
+        r
+    }
+
+    pub(crate) fn has(&self, pos: u64, size: u64) -> bool {
+        match self.find_pos(pos) {
+            Some(i) => self.size[i] == size,
+            None => false,
+        }
+    }
+}
+
+pub(crate) fn c04_take_free_model(_r: &mut StorageRecords, min_size: u64) -> Option<(u64, u64)> {
+    let m = c04_fm();
+    let mut best: Option<usize> = None;
+    let mut i = 0;
+    while i < C04_FCAP {
+        if i < m.n && (m.size[i] == min_size || m.size[i] >= min_size + STORAGE_RECORD_SIZE) {
+            best = match best {
+                None => Some(i),
+                Some(b) => {
+                    if m.size[i] < m.size[b] || (m.size[i] == m.size[b] && m.pos[i] < m.pos[b]) {
+                        Some(i)
+                    } else {
+                        Some(b)
+                    }
+                }
+            };
+        }
+        i += 1;
+    }
+    match best {
+        Some(b) => Some(m.take(b)),
+        None => None,
+    }
+}
+
+pub(crate) fn c04_take_free_after_model(
+    _r: &mut StorageRecords,
+    end_pos: u64,
+    min_size: u64,
+) -> Option<(u64, u64)> {
+    let m = c04_fm();
+    match m.find_pos(end_pos) {
+        Some(i) if STORAGE_RECORD_SIZE + m.size[i] == min_size || m.size[i] >= min_size => {
+            Some(m.take(i))
+        }
+        _ => None,
+    }
+}
+
+pub(crate) fn c04_mark_free_compact_model(_r: &mut StorageRecords, pos: u64, size: u64) -> (u64, u64) {
+    let m = c04_fm();
+    let mut pos = pos;
+    let mut end_pos = pos + STORAGE_RECORD_SIZE + size;
+    let mut k = 0;
+    while k < C04_FCAP {
+        if let Some(i) = m.find_pos(end_pos) {
+            let (_, s) = m.take(i);
+            end_pos += STORAGE_RECORD_SIZE + s;
+        }
+        k += 1;
+    }
+    let mut k = 0;
+    while k < C04_FCAP {
+        if let Some(i) = m.find_end(pos) {
+            let (p, _) = m.take(i);
+            pos = p;
+        }
+        k += 1;
+    }
+    let size = end_pos - pos - STORAGE_RECORD_SIZE;
+    m.push(pos, size);
+    (pos, size)
+}
+
+pub(crate) fn c04_mark_free_model(_r: &mut StorageRecords, pos: u64, size: u64) {
+    c04_fm().push(pos, size);
+}
+
+pub(crate) fn c04_clear_free_model(_r: &mut StorageRecords) {
+    c04_fm().reset();
+}
+
+pub(crate) fn c04_free_size_model(_r: &StorageRecords) -> u64 {
+    c04_fm().total
+}
+
+/// Sets the capacity of the record table to exactly `n` slots (no change of
+/// content). 8 slots = 192 bytes stays within the field-sensitivity limit
+/// (`--max-field-sensitivity-array-size 200`) the harnesses run with.
+pub(crate) fn c04_reserve_table(r: &mut StorageRecords, n: usize) {
+    let len = r.records.len();
+    assert!(len == 1 && r.records[0].index == 0, "harness: expected a fresh table");
+    r.records.reserve_exact(n - len);
+    assert!(r.records.capacity() == n, "harness: unexpected table capacity");
+    // the reallocation copied slot 0 with a memcpy, after which CBMC no longer
+    // sees its (unchanged, all-zero) content as constant: store it again
+    r.records[0] = StorageRecord::default();
+}
+
+/// Length of the record table (slot 0 included).
+pub(crate) fn c04_table_len(r: &StorageRecords) -> usize {
+    r.records.len()
+}
+
+/// Head of the free-index list (slot 0 of the table).
+pub(crate) fn c04_free_index_head(r: &StorageRecords) -> u64 {
+    r.records[0].index
+}
+
+/// Raw table slot.
+pub(crate) fn c04_slot(r: &StorageRecords, i: usize) -> StorageRecord {
+    r.records[i]
+}
+
+// ===========================================================================
+// C04 -- record table half of StorageRecords (real code, symbolic indexes)
+// ===========================================================================
+
+fn c04_table_case(i1: u64, i2: u64) {
+    const N: usize = 5;
+    let r1 = StorageRecord { index: i1, pos: kani::any(), size: kani::any() };
+    let r2 = StorageRecord { index: i2, pos: kani::any(), size: kani::any() };
+    kani::assume(r1.pos != u64::MAX && r2.pos != u64::MAX && r1.pos < r2.pos);
+    let mut t = StorageRecords::new();
+    t.set_record(r1);
+    t.set_record(r2);
+    t.rebuild_free_index();
+    let len = t.records.len();
+    let max = if i1 > i2 { i1 } else { i2 };
+    assert!(len as u64 == max + 1, "table is not sized by the largest loaded index");
+    let mut live = [false; N + 3];
+    live[i1 as usize] = true;
+    live[i2 as usize] = true;
+    // exactly the loaded indexes are readable
+    let mut i = 0;
+    while i < N + 2 {
+        match t.record(i as u64) {
+            Ok(r) => {
+                assert!(live[i], "an index that was not loaded is valid");
+                let want = if i as u64 == i1 { r1 } else { r2 };
+                assert!(r.index == want.index && r.pos == want.pos && r.size == want.size, "loaded record changed");
+            }
+            Err(e) => {
+                std::mem::forget(e);
+                assert!(!live[i], "a loaded index is not valid");
+            }
+        }
+        i += 1;
+    }
+    let all = t.records();
+    assert!(all.len() == 2 && all[0].index == i1 && all[1].index == i2, "records() is not the live records ordered by position");
+    std::mem::forget(all);
+    // remove one of them: invalid, and reusable
+    t.remove_index(i1);
+    live[i1 as usize] = false;
+    assert!(!crate::verif_support::is_ok(t.record(i1)), "removed index still valid");
+    // every unused slot below len is handed out exactly once, then the table grows
+    let unused = len - 1 - 1; // slots 1..len minus the one live record
+    let mut k = 0;
+    while k < N + 1 {
+        let r = t.new_record(100 + k as u64, 1);
+        let idx = r.index as usize;
+        assert!(idx >= 1 && idx < N + 3, "new_record returned index 0 or a wild index");
+        assert!(!live[idx], "new_record handed out a live index");
+        if k < unused {
+            assert!(idx < len, "table grew although an unused index was available");
+        } else {
+            assert!(idx == len + (k - unused), "table did not grow by one slot");
+        }
+        live[idx] = true;
+        let back = crate::verif_support::ok(t.record(r.index));
+        assert!(back.pos == 100 + k as u64 && back.size == 1, "new record not stored");
+        k += 1;
+    }
+    assert!(crate::verif_support::is_ok(t.record(i2)), "untouched record lost");
+    std::mem::forget(t);
+}
+
+//@ id=C04 tier=quick timeout=900 cbmc="--max-field-sensitivity-array-size 200" args="--no-assertion-reach-checks" bounds="two records with distinct indexes (pairs (1,2) (2,1) (5,1) (1,5) (3,5) (4,2) in load order), symbolic pos/size, loaded into a fresh table; then remove_index and 6 new_record calls" desc="set_record + rebuild_free_index (the reopen path): exactly the loaded indexes are valid and return their record, records() lists them by position, every other slot is on the free-index list; after remove_index, new_record hands out each unused index below the table length exactly once (never a live one) before the table grows by one slot per call" kernel="StorageRecords::set_record,StorageRecords::rebuild_free_index,StorageRecords::new_record,StorageRecords::remove_index,StorageRecords::record,StorageRecords::is_valid,StorageRecords::records"
+#[kani::proof]
+#[kani::stub(std::fmt::format, crate::verif_support::fmt_stub)]
+#[kani::stub(crate::DbError::new, crate::verif_support::dberror_new_stub)]
+#[kani::stub(alloc::slice::stable_sort, crate::storage::verif_h::c04_stable_sort_stub)]
+#[kani::stub(crate::storage::storage_records::StorageRecords::mark_free, c04_mark_free_model)]
+#[kani::unwind(9)]
+fn c04_table_rebuild_and_reuse() {
+    c04_table_case(1, 2);
+    c04_table_case(2, 1);
+    c04_table_case(5, 1);
+    c04_table_case(1, 5);
+    c04_table_case(3, 5);
+    c04_table_case(4, 2);
+    kani::cover!(true, "end of harness reachable");
+}
+
+// ===========================================================================
+// C07 -- record table sized by a number read from the file
+// ===========================================================================
+
+fn c07_set_record_case(index: u64) {
+    c04_fm().reset();
+    let rec = StorageRecord {
+        index,
+        pos: kani::any(),
+        size: kani::any(),
+    };
+    let mut t = StorageRecords::new();
+    t.set_record(rec);
+    t.rebuild_free_index();
+    if rec.index != 0 && rec.pos != u64::MAX {
+        let back = crate::verif_support::ok(t.record(rec.index));
+        assert!(back.pos == rec.pos && back.size == rec.size, "record not stored under its index");
+    }
+    std::mem::forget(t);
+}
+
+//@ id=C07 tier=quick timeout=300 cbmc="--max-field-sensitivity-array-size 200" args="--no-assertion-reach-checks" bounds="one record into a fresh table, index = 6 (and 0 = free record) (a symbolic index exhausts the solver memory, extreme values are enumerated one per harness), pos and size: all u64; loops bounded by 8 iterations; free index = contract model" desc="StorageRecords::set_record followed by rebuild_free_index with a record whose index (6 (and 0 = free record)) comes from file content does not panic, overflow, or loop / allocate proportionally to the index value" kernel="StorageRecords::set_record,StorageRecords::rebuild_free_index,StorageRecords::remove_index"
+#[kani::proof]
+#[kani::stub(std::fmt::format, crate::verif_support::fmt_stub)]
+#[kani::stub(crate::DbError::new, crate::verif_support::dberror_new_stub)]
+#[kani::stub(crate::storage::storage_records::StorageRecords::mark_free, c04_mark_free_model)]
+#[kani::unwind(8)]
+fn c07_set_record_small() {
+    c07_set_record_case(0);
+    c07_set_record_case(6);
+    kani::cover!(true, "end of harness reachable");
+}
+
+//@ id=C07 tier=quick timeout=300 cbmc="--max-field-sensitivity-array-size 200" args="--no-assertion-reach-checks" bounds="one record into a fresh table, index = 2^64-1 (a symbolic index exhausts the solver memory, extreme values are enumerated one per harness), pos and size: all u64; loops bounded by 8 iterations; free index = contract model" desc="StorageRecords::set_record followed by rebuild_free_index with a record whose index (2^64-1) comes from file content does not panic, overflow, or loop / allocate proportionally to the index value" kernel="StorageRecords::set_record,StorageRecords::rebuild_free_index,StorageRecords::remove_index"
+#[kani::proof]
+#[kani::stub(std::fmt::format, crate::verif_support::fmt_stub)]
+#[kani::stub(crate::DbError::new, crate::verif_support::dberror_new_stub)]
+#[kani::stub(crate::storage::storage_records::StorageRecords::mark_free, c04_mark_free_model)]
+#[kani::unwind(8)]
+fn c07_set_record_index_max() {
+    c07_set_record_case(u64::MAX);
+    kani::cover!(true, "end of harness reachable");
+}
+
+//@ id=C07 tier=quick timeout=300 cbmc="--max-field-sensitivity-array-size 200" args="--no-assertion-reach-checks" bounds="one record into a fresh table, index = 2^62 (a symbolic index exhausts the solver memory, extreme values are enumerated one per harness), pos and size: all u64; loops bounded by 8 iterations; free index = contract model" desc="StorageRecords::set_record followed by rebuild_free_index with a record whose index (2^62) comes from file content does not panic, overflow, or loop / allocate proportionally to the index value" kernel="StorageRecords::set_record,StorageRecords::rebuild_free_index,StorageRecords::remove_index"
+#[kani::proof]
+#[kani::stub(std::fmt::format, crate::verif_support::fmt_stub)]
+#[kani::stub(crate::DbError::new, crate::verif_support::dberror_new_stub)]
+#[kani::stub(crate::storage::storage_records::StorageRecords::mark_free, c04_mark_free_model)]
+#[kani::unwind(8)]
+fn c07_set_record_index_2p62() {
+    c07_set_record_case(1 << 62);
+    kani::cover!(true, "end of harness reachable");
+}
+
+//@ id=C07 tier=quick timeout=300 cbmc="--max-field-sensitivity-array-size 200" args="--no-assertion-reach-checks" bounds="one record into a fresh table, index = 2^40 (a symbolic index exhausts the solver memory, extreme values are enumerated one per harness), pos and size: all u64; loops bounded by 8 iterations; free index = contract model" desc="StorageRecords::set_record followed by rebuild_free_index with a record whose index (2^40) comes from file content does not panic, overflow, or loop / allocate proportionally to the index value" kernel="StorageRecords::set_record,StorageRecords::rebuild_free_index,StorageRecords::remove_index"
+#[kani::proof]
+#[kani::stub(std::fmt::format, crate::verif_support::fmt_stub)]
+#[kani::stub(crate::DbError::new, crate::verif_support::dberror_new_stub)]
+#[kani::stub(crate::storage::storage_records::StorageRecords::mark_free, c04_mark_free_model)]
+#[kani::unwind(8)]
+fn c07_set_record_index_2p40() {
+    c07_set_record_case(1 << 40);
+    kani::cover!(true, "end of harness reachable");
+}
+
